@@ -1,1 +1,23 @@
-From VP Require Import Base.Tactics Window.Model Window.Run Window.Props.
+From Coq Require Import Sorted.
+From VP Require Import Base.Tactics Window.Model Window.Run Window.Spec Window.Props.
+Open Scope Z_scope.
+
+Check (C12_partition : forall k ops outs s,
+  closing_kind k -> run (init k) ops = (outs, s) ->
+  concat (all_windows outs) ++ buffered s = arrivals ops).
+Print Assumptions C12_partition.
+
+Check (C12_count_exact : forall n ops outs s,
+  (1 <= n)%nat -> run (init (KCount n)) ops = (outs, s) ->
+  Forall (fun l => length l = n) (add_windows ops outs) /\ (length (buffered s) < n)%nat).
+Print Assumptions C12_count_exact.
+
+Check (C12_tumbling_span : forall d ops outs s,
+  1 <= d -> time_ordered ops -> run (init (KTumbling d)) ops = (outs, s) ->
+  Forall (span_ok d) (all_windows outs ++ [buffered s])).
+Print Assumptions C12_tumbling_span.
+
+Check (C12_session_gap : forall g ops outs s,
+  0 <= g -> in_order (arrivals ops) -> run (init (KSession g)) ops = (outs, s) ->
+  Forall (gaps_ok g) (all_windows outs ++ [buffered s])).
+Print Assumptions C12_session_gap.
